@@ -264,8 +264,12 @@ pub fn finish(info: &RunInfo, mon: &Mon) -> i32 {
             "signature": sig, "what": v.what, "occurrences_in_run": cnt, "detail": v.detail,
         });
         let _ = std::fs::write(&path, serde_json::to_string_pretty(&doc).unwrap());
-        out(&format!("VIOLATION property={} replay={}", info.property, path));
-        out(&format!("  signature={} what={} (x{})", sig, v.what, cnt));
+        if n <= 12 {
+            out(&format!("VIOLATION property={} replay={}", info.property, path));
+            out(&format!("  signature={} what={} (x{})", sig, v.what, cnt));
+        } else if n == 13 {
+            out(&format!("  ... {} violation signatures in total, all replays under {}", new_sigs.len(), replay_dir));
+        }
         replay_paths.push(path);
         exit = 1;
     }
